@@ -8,7 +8,8 @@ ID = "C01"
 LEVEL = "exploration"
 RULE = (
     "cases = seeded random plans (9 shape families; positional/keyword/dependency edges, parallel edges, containers, "
-    "literal-routed dependencies, literal hubs on both sides of the pruning threshold, unpack) x max_workers x scheduler "
+    "literal-routed dependencies, literal hubs on both sides of the pruning threshold, unpack) x max_workers x scheduler x "
+    "{all calls succeed, some calls raise Exception/BaseException/CancelledError/CallError with max_errors letting the run go on} "
     "x schedule driver (bytecode-granular yield injection in the engine's code / LINE-granular / none); a case is "
     "non-trivial when at least one executed call had >= 2 distinct predecessor calls; distinct = different "
     "(plan structure, W, scheduler, observed global start/end order)"
@@ -29,7 +30,13 @@ def gen_cases(tier, seed):
         r = random.Random(s)
         ncalls = r.randint(2, maxcalls) if r.random() < 0.85 else r.randint(2, 8)
         W = plainrun.pick_W(r, ncalls)
+        faults = {}
+        if r.random() < 0.25:
+            # "finished executing SUCCESSFULLY": a predecessor that raises (any exception type) never releases its successors
+            faults = {"faults": {"p": r.choice([0.1, 0.3]), "kinds": r.choice([["exc", "value"], ["base", "kbi", "sysexit", "genexit", "cancel"], ["callerr", "exc", "cancel"]])},
+                      "max_errors": r.choice([None, None, 1, 3])}
         out.append({
+            **faults,
             "seed": s, "n": ncalls, "W": W, "sched": r.choice(["default", "random"]),
             "perturb": r.choice(["instr", "instr", "instr", "line", "none"]) if W > 1 else "none",
             "cfg": {"out": r.choice(["all", "all", "sinks", "sinks", "struct", "node"])},
@@ -95,8 +102,9 @@ def run_case(desc):
     if bad:
         res.update(status="violation", detail=bad, mechanism="early-start",
                    witness={"plan": ir.describe(200), "history": H.compact_history(2000), "W": desc["W"], "sched": desc["sched"]})
-    elif R.exc is not None:
+    elif R.exc is not None and not R.fail:
         res.update(status="inconclusive", detail=f"run raised unexpectedly: {R.exc!r} cause={R.exc.__cause__!r}")
+    counters["runs_with_failing_predecessors"] = int(bool(R.fail))
     return res
 
 
